@@ -23,7 +23,7 @@ PROPERTY = "C28"
 TECHNIQUE = "exhaustive enumeration of the program tree to a depth bound on the real connection, replicated in separate interpreter processes with different hash seeds and compared node by node"
 RULE = ("one evaluation = one program (path in the call tree) executed in one process; non-trivial = the program's last step raised or "
         "returned events; every node is compared across all seeds")
-BOUNDS = {"quick": "all programs of depth <= 3 over the alphabet, both roles, 6 hash seeds",
+BOUNDS = {"quick": "all programs of depth <= 3 over the alphabet, both roles, 6 hash seeds; isolation layer: programs of depth <= 2, two passes in one process",
           "thorough": "all programs of depth <= 4, both roles, 6 hash seeds"}
 ASSUMPTIONS = ["hash seeds are sampled (K of 2^32): 0,1,2,3 and two derived from VERIF_SEED; wall-clock and process identity vary freely between the K runs"]
 
@@ -151,6 +151,80 @@ def worker_main(role, depth, first_shard, nshards, outpath):
                    "alphabet": [a[0] for a in A]}, fh)
 
 
+def _fresh_default(client):
+    """A connection built the way an application builds one, without anything of the harness in between: a client by
+    the bare constructor, a server by passing its own configuration object."""
+    import h2.config
+    import h2.connection
+    if client:
+        return h2.connection.H2Connection()
+    return h2.connection.H2Connection(config=h2.config.H2Configuration(client_side=False))
+
+
+def isolation_main(role, depth, outpath):
+    """Every program (the alphabet plus the documented run-time configuration switches) is run on a freshly constructed
+    connection in a first pass and again in a second pass of the SAME process, after all the other programs have run on
+    their own connections.  Two connections driven by the same calls must behave identically, whatever other
+    connections of the process did in between: the two digests of a program must be equal."""
+    sys.path.insert(0, os.path.dirname(os.path.dirname(os.path.dirname(os.path.abspath(__file__)))))
+    client = role == "client"
+    A = list(alphabet(client))
+    A.append(("cfg-header-encoding", ("cfg", "header_encoding", "utf-8")))
+    A.append(("cfg-no-outbound-normalisation", ("cfg", "normalize_outbound_headers", False)))
+    A.append(("cfg-no-inbound-validation", ("cfg", "validate_inbound_headers", False)))
+
+    def step(conn, act):
+        if act[0] == "cfg":
+            setattr(conn.config, act[1], act[2])
+            return _digest("cfg", act[1])
+        return _step(conn, act)[0]
+
+    def programs(d, prefix=()):
+        for i in range(len(A)):
+            p = prefix + (i,)
+            yield p
+            if d > 1:
+                for q in programs(d - 1, p):
+                    yield q
+
+    def run_pass():
+        out = {}
+        for prog in programs(depth):
+            conn = _fresh_default(client)
+            dg = None
+            for i in prog:
+                dg = step(conn, A[i][1])
+            out[prog] = dg
+        return out
+
+    first = run_pass()
+    second = run_pass()
+    diffs = [list(p) for p in sorted(first) if first[p] != second[p]]
+    with open(outpath, "w") as fh:
+        json.dump({"programs": len(first), "differing": diffs[:50], "n_differing": len(diffs), "alphabet": [a[0] for a in A]}, fh)
+
+
+def _run_isolation(depth, roles):
+    import tempfile
+    here = os.path.dirname(os.path.dirname(os.path.dirname(os.path.abspath(__file__))))
+    tmpd = tempfile.mkdtemp(prefix="c28iso-")
+    procs = []
+    for role in roles:
+        out = os.path.join(tmpd, "iso-%s.json" % role)
+        env = dict(os.environ, PYTHONHASHSEED="0", PYTHONPATH=here)
+        code = ("import sys; sys.path.insert(0, %r); from h2mc import env; from h2mc.checks import c28; "
+                "c28.isolation_main(%r, %d, %r)" % (here, role, depth, out))
+        procs.append((role, out, subprocess.Popen([sys.executable, "-c", code], env=env)))
+    res = {}
+    for role, out, p in procs:
+        if p.wait() != 0:
+            raise RuntimeError("c28 isolation worker failed (%s)" % role)
+        res[role] = json.load(open(out))
+        os.unlink(out)
+    os.rmdir(tmpd)
+    return res
+
+
 def make_spec(key):
     raise NotImplementedError
 
@@ -216,6 +290,11 @@ def compare(results, seeds, roles, nshards):
 def replay(rec):
     """Re-run the single program in two fresh interpreters with the recorded seeds."""
     case = rec["case"]
+    if case.get("layer") == "isolation":
+        res = _run_isolation(case["depth"], (case["role"],))[case["role"]]
+        if case["path"] in res["differing"] or res["n_differing"]:
+            return [{"kind": "connections-not-independent", "sig": rec["sig"], "msg": rec.get("msg", "")}]
+        return []
     here = os.path.dirname(os.path.dirname(os.path.dirname(os.path.abspath(__file__))))
     outs = []
     for s in case["seeds"]:
@@ -249,3 +328,22 @@ def run(ctx):
                             len(seeds), seeds), "wall_s": 0})
     ctx.samples.extend(samples)
     ctx.notes["hash_seeds"] = seeds
+    # ---- same-process isolation layer
+    idepth = 2 if ctx.tier == "quick" else 3
+    iso = _run_isolation(idepth, roles)
+    total = 0
+    for role in roles:
+        r = iso[role]
+        total += r["programs"]
+        if r["n_differing"]:
+            path = min(r["differing"], key=len)
+            prog = [r["alphabet"][i] for i in path]
+            ctx.violation({"kind": "connections-not-independent",
+                           "sig": {"kind": "connections-not-independent", "role": role, "last_action": prog[-1]},
+                           "msg": "[%s] program %s gives a different observation on a freshly constructed connection after other connections "
+                                  "of the same process have run their programs (%d of %d programs differ)" % (role, prog, r["n_differing"], r["programs"]),
+                           "case": {"layer": "isolation", "role": role, "program": prog, "path": path, "depth": idepth}})
+    ctx.fanouts.append({"harness": "c28-isolation-depth%d" % idepth, "evaluations": 2 * total,
+                        "outcomes": {"programs": total, "passes": 2}, "nontrivial": total, "states": total,
+                        "domain": "all programs of depth <= %d over the alphabet + 3 run-time configuration switches, each run twice in one process on freshly constructed connections" % idepth,
+                        "wall_s": 0})
